@@ -125,8 +125,10 @@ func (hc *httpCache) Get() (status Status, response *HTTPResponse) {
 		// 完成后需要在锁内重新获取当前状态与响应，
 		// 因为被唤醒到重新执行之间缓存有可能已过期（并被其它请求重新设置为fetching），
 		// 不加锁直接读取会导致同一个key有多个请求同时转发至后端
+		verifPoint("get.lock", hc)
 		hc.mu.Lock()
 		status, done, response = hc.get()
+		verifPoint("get.done", hc, int(status), done != nil)
 		hc.mu.Unlock()
 	}
 	return
